@@ -13,12 +13,30 @@ CHECKS = {
         'level': 'proof',
         'text': 'TokenIterator::next carries the contract "returns the first unknown-free word-boundary-delimited segment at or after the '
                 'previous end, or None when none remains" for every boundary vector of every length (inductive loop invariant, no bound); '
-                'partition / exactly-once / ordering clauses are lemmas over that contract; Token accessors are proved in bounds.',
+                'partition / exactly-once / ordering clauses are lemmas over that contract; Token accessors are proved in bounds; '
+                'write_tokenized_text is proved (unit W_writer, against the contracts of iter_tokens/next/surface/tags) to leave in the buffer exactly '
+                'tok_line(sentence): the tokens in iterator order, separated by one space, escaped, with each token\'s tags up to the last present one.',
         'design_ref': 'DESIGN.md section 5.C02',
-        'note': 'Trusted: extraction rules R0/R1/R7/R9 (listed in evidence), opaque Predictor/VaporettoError stubs, std spec u32::from(char). '
-                'Not proved: the "tokenized writer emits exactly those tokens" clause (write_tokenized_text is outside Verus) — covered only '
-                'by the bounded sweep of the thorough tier, labelled bounded.',
+        'note': 'Trusted: extraction rules (listed in evidence), opaque Predictor/VaporettoError stubs, std specs u32::from(char), String::as_mut_vec '
+                '(bytes = UTF-8 of the string; the string after the borrow is the decoding of the bytes IF they are valid UTF-8 -- validity is proved), '
+                'and the std expression rposition(..).map_or(..) moved into a stub function with its std meaning as contract.',
         'technique': TECH + '; loop invariant over the segment abstraction',
+    },
+    'C03': {
+        'level': 'proof',
+        'text': 'Round trip of the tokenized format as a theorem over the two contracts: write_tokenized_text is proved to emit tok_line(s) (unit W_writer) '
+                'and from_tokenized/update_tokenized are proved to compute tok_run(input) -- text, labels, tag table, n_tags -- and to fail only on inputs '
+                'tok_run rejects (unit S_parse). Lemma lemma_tok_roundtrip (induction over the segments of the line and the characters of every surface and '
+                'tag, unbounded): for every fully segmented sentence with NUL-free text and non-empty NUL-free tags, tok_run(tok_line(s)) accepts and yields '
+                'the same text, the same labels and, on the last character of every token, that token\'s tags up to the last present one. Two verified '
+                'callers of the real functions (checked against the callee contracts only) state the property itself: c03_write_then_parse returns Ok(p) '
+                'with p equal to s up to trailing absent tags, and c03_idempotent shows write(parse(write(parse x))) == write(parse x) for every accepted x. '
+                'Valid UTF-8 of the written text is an obligation inside write_tokenized_text (bytes pushed through as_mut_vec).',
+        'design_ref': 'DESIGN.md section 5.C03',
+        'note': 'Trusted: the std specs listed under C02/C05, extraction rules, and the two format specifications themselves (tok_run and tok_line are '
+                'transcribed from the documented rules; a known-answer lemma and canaries guard against vacuous specs). Tags are compared per token '
+                '(Token::tags row); tags on characters that do not end a token are not representable in the format.',
+        'technique': TECH + '; encode/decode pair as a lemma over two function contracts, composed in verified callers',
     },
     'C05': {
         'level': 'proof',
@@ -29,8 +47,9 @@ CHECKS = {
                 'whatever the object held before (update_* have no precondition); accessors and reset_tags are proved against the invariant.',
         'design_ref': 'DESIGN.md section 5.C05',
         'note': 'Trusted: std specs missing from vstd (Cow deref/to_mut, Option::replace, u32::from(char), str/String length <= isize::MAX), '
-                'opaque error constructor, extraction rules R0/R1/R4/R5/R7/R9/R10. Not proved: equality of parsed content with the annotated '
-                'input (C03/C04), the two writers (outside Verus).',
+                'opaque error constructor, extraction rules R0/R1/R4/R5/R7/R9/R10. Both parsers are additionally proved to compute exactly the '
+                'format transition functions tok_run / pa_run on the whole input (content clause; used by C03). Not proved: '
+                'write_partial_annotation_text (outside Verus: chunks_exact + three-way zip).',
         'technique': TECH + '; representation invariant + history-free postconditions',
     },
     'C07': {
@@ -90,7 +109,9 @@ CHECKS = {
                 're-initialises every slot to bias, lets the scorers add, and labels boundary i WordBoundary iff score[7+i] > 0 else NotWordBoundary, '
                 'for every i, leaving no Unknown and nothing else changed.',
         'design_ref': 'DESIGN.md section 5.C01',
-        'note': 'ASSUMED (listed in evidence): contracts of the three automaton-driven scorers (frame + adds a function of (scorer, input)), '
+        'note': 'The four automaton-driven add_scores bodies are proved in unit C_scorers (positional sum over the matches reported by the automaton, '
+                'padding sufficiency, every unchecked access) against an ASSUMED daachorse iterator contract (matches have in-range ends and pattern '
+                'values); their enum-level contracts are the same text used by Predictor::predict. ASSUMED: daachorse semantics, '
                 'weight mergers, cache table construction, std rotate_right/split_last specs. Machine arithmetic is NOT treated as mathematical: '
                 'overflow obligations are discharged from stated ranges (offsets in [-32767,0], lengths < 2^31, pointwise sums in i32).',
         'technique': TECH + '; positional-function spec (contrib) + loop invariants + bit-vector lemmas',
@@ -102,8 +123,9 @@ CHECKS = {
                 'beyond the model are untouched; WeightVector::add_scores adds weight j to score j in both layouts; predict_tags is proved in bounds '
                 '(tag slots i*n..(i+1)*n, substrings, score-storing slots) with the sentence invariant and frame preserved.',
         'design_ref': 'DESIGN.md section 5.C06',
-        'note': 'ASSUMED: tag-score accumulation (add_tag_scores over hash maps), token lookup, tag_entry_ok (bias sized to the candidates) and '
-                'tagging_ok (scorer variant) which Predictor::new is meant to establish.',
+        'note': 'Both add_tag_scores bodies are proved in unit C_scorers against assumed hash-map / automaton stubs; at the predict_tags call site '
+                'their extra preconditions (token id range, no overflow, >= 8 slots) are ASSUMED, as are token lookup, tag_entry_ok (bias sized to '
+                'the candidates) and tagging_ok (scorer variant) which Predictor::new is meant to establish.',
         'technique': TECH + '; arg-max-first predicate + class-offset recursion',
     },
     'C13': {
@@ -119,9 +141,10 @@ CHECKS = {
         'level': 'proof',
         'text': 'trim_end_zeros returns the shortest prefix that drops only zeros; From<Vec<i32>> zero-pads to the fixed length; lemma: decoding the '
                 'encoding of any Fixed array gives the same array, and a Variable vector decodes to a layout denoting the same positional function; '
-                'deserialize_from_slice_unchecked returns exactly data[size..].',
+                'deserialize_from_slice_unchecked returns exactly data[size..]; unit E_codec proves that PredictorData::encode and borrow_decode '
+                'process the same five items in the same order under an item-stream model of bincode.',
         'design_ref': 'DESIGN.md section 5.C14',
-        'note': 'ASSUMED: bincode, SerializableHashMap encoding order independence, daachorse (de)serialisation.',
+        'note': 'ASSUMED: bincode leaf codecs (each item decodes to what was encoded), SerializableHashMap encoding order independence, daachorse (de)serialisation.',
         'technique': TECH + '; encode/decode pair as lemma over two function contracts',
     },
     'C18': {
@@ -130,15 +153,16 @@ CHECKS = {
                 'get_unchecked/get_unchecked_mut are renamed to verified checked twins (R2), debug_asserts are kept as obligations where expressible, '
                 'slice ranges, str slicing at character boundaries (lemma: byte offsets from the position map are char boundaries), tag-slot arithmetic.',
         'design_ref': 'DESIGN.md section 5.C18',
-        'note': 'Covers: Sentence accessors/iterators, KyteaWsConstFilter, predictor kernel, cached type scorer, predict_tags. Not covered: the '
-                'automaton-driven scorers, writers (as_mut_vec), grapheme/line-break filters.',
+        'note': 'Covers: Sentence accessors/iterators, both parsers, write_tokenized_text (as_mut_vec bytes proved valid UTF-8), KyteaWsConstFilter, '
+                'SplitLinebreaksFilter, predictor kernel, cached type scorer, predict_tags, and the automaton-driven scorers (against an assumed '
+                'daachorse iterator contract). Not covered: grapheme filter, write_partial_annotation_text, feature configurations other than default '
+                'and fix-weight-length off. Both tiers also run the sweeps on a build with debug assertions (library UB checks on).',
         'technique': TECH + '; unchecked -> checked twin with bounds precondition',
     },
 }
 
 NOT_APPLICABLE = {
-    'C03': 'round trip needs the writers (chunks_exact, rposition, map_or, user iterator in for, String::as_mut_vec): all rejected by the installed Verus; Kani stand-in does not reach a verdict (DESIGN 5.C03)',
-    'C04': 'same writer/parser pair as C03; no contract within reach can express the inversion (DESIGN 5.C03/C04)',
+    'C04': 'write_partial_annotation_text uses chunks_exact and a three-way zip of user iterators, which the installed Verus rejects; the parser side IS under contract (pa_run content clause in S_parse) but without a contract on the writer the inversion cannot be stated over the real code (DESIGN 5.C04)',
     'C09': 'coefficient->weight translation is inlined in Trainer::train between liblinear FFI calls and f64 code; no function boundary to put a contract on',
     'C10': 'example store is filled through hashbrown entry API + f64 inside an FFI-backed crate feature; no contractable boundary',
     'C11': 'totality of an FFI (liblinear) + floating-point pipeline; outside Verus and Kani',
